@@ -20,9 +20,15 @@ def accepts (p : Pred) (ak payload : Bytes) : Bool :=
   | .accepted k (.ok b) => k == ak && b == payload
   | _ => false
 
+/-- Name the cause of a rejected SDK-signed request. A known cause is named only when the model of
+the code *as it is* also rejects the request and the corresponding repaired variant accepts it;
+anything the as-is model would have accepted is a different, unexplained failure. -/
 def classify (cfg : Config) (r : Req) (ak payload : Bytes) : String :=
-  if accepts (predict realCrypto ⟨true, false⟩ cfg r) ak payload then "C29.header-inner-spaces-not-collapsed"
-  else if accepts (predict realCrypto ⟨false, true⟩ cfg r) ak payload then "C29.query-sorted-encoded-not-decoded"
+  if accepts (predict realCrypto codeFix cfg r) ak payload then "C29.sdk-signed-request-rejected"
+  else if accepts (predict realCrypto ⟨true, codeFix.sortDecoded⟩ cfg r) ak payload then
+    "C29.header-inner-spaces-not-collapsed"
+  else if accepts (predict realCrypto ⟨codeFix.collapseSpaces, true⟩ cfg r) ak payload then
+    "C29.query-sorted-encoded-not-decoded"
   else if accepts (predict realCrypto ⟨true, true⟩ cfg r) ak payload then "C29.header-spaces-and-query-order"
   else "C29.sdk-signed-request-rejected"
 
@@ -66,7 +72,9 @@ def judgeCase (_k : Nat) (lines : List String) : Verdict := Id.run do
         | .ok sp, some cred =>
           let names := parseSignedHeaders sp.signedHeaders
           let modelNames := sortBy bytesLe (hostKey :: sdkSignedNames r)
-          if sortBy bytesLe names != modelNames then
+          -- (a presigned URL is used by a third party who adds unsigned headers of its own, e.g. a
+          -- Content-Length: only header-signed requests show which headers the SDK had before it)
+          if !sp.presigned && sortBy bytesLe names != modelNames then
             div := div ++ [s!"{rc.label}:sdk-model-signed-headers:model={modelNames.map bytesToString},sdk={names.map bytesToString}"]
           let sig := sdkSignature realCrypto cred.secret (sp.timestamp.take 8) cfg.region sp.timestamp r names sp.presigned
           if sig != sp.signature then
